@@ -23,6 +23,7 @@ ALPH = {
 DEPTH = {'quick': dict(linkimg=5, info=6, autolink=5, table=5, refdef=5),
          'thorough': dict(linkimg=6, info=7, autolink=7, table=7, refdef=6)}
 EDIT_TOKENS = ['"', "'", '<', '>', '&', '`']
+ROLE_STRINGS = ['"', "'", '<', '>', '&', 'a"b', "a'b", '<b>', '&amp;', '&quot;', '">', 'x&y', '<!--', '</p>', '\\"']
 OPTS = [dict(html_escape_double_quotes=a, html_escape_single_quotes=b) for a in (False, True) for b in (False, True)]
 _SetAside = None
 
@@ -56,6 +57,8 @@ def jobs(tier):
             js.append(('words', name, j[1], j[2]))
     for lo in range(0, 652, 8):
         js.append(('edit', lo, lo + 8))
+    for i in range(len(ROLE_STRINGS)):
+        js.append(('roles', i))
     step = 0x110000 // 32
     for lo in range(0, 0x110000, step):
         js.append(('helpers', lo, min(0x110000, lo + step)))
@@ -165,6 +168,10 @@ def run_job(job):
                     seen.add(text)
                     run_text(r, text)
             r.sample(dict(space='edit1', example=ex['example'], variants=len(seen)), 1)
+    elif kind == 'roles':
+        for key, text in spaces.role_documents([ROLE_STRINGS[job[1]]]):
+            run_text(r, text)
+        r.sample(dict(space='roles', string=ROLE_STRINGS[job[1]]), 1)
     elif kind == 'helpers':
         core.fresh()
         for cp in range(job[1], job[2]):
